@@ -24,15 +24,20 @@ type verifWorld struct {
 
 // input plugin stub: the commit notifications are where C01/C02 are asserted
 type verifInput struct {
-	w      *verifWorld
-	refuse bool
+	w        *verifWorld
+	refuse   bool
+	refusals int
 }
 
 func (in *verifInput) Start(AnyConfig, *InputPluginParams) {}
 func (in *verifInput) Stop()                                {}
 func (in *verifInput) PassEvent(*Event) bool {
 	// an input may recognise a record as already committed (after a restart) and refuse it
-	return !(in.refuse && vf.Choose("input-refuses", 2) == 1)
+	if in.refuse && vf.Choose("input-refuses", 2) == 1 {
+		in.refusals++
+		return false
+	}
+	return true
 }
 func (in *verifInput) Commit(e *Event) {
 	w := in.w
